@@ -228,7 +228,18 @@ def run_solve_purity(comp, storage, seed, tid):
         arrays["dual_init"] = dual
     arrays.update(X=Xs, y=y)
     before = {k: _bytes(v) for k, v in arrays.items()}
+
+    def params(sv):
+        """the solver's own hyper-parameters (scalars and arrays it was constructed with)"""
+        out = {}
+        for k_, v_ in vars(sv).items():
+            if callable(v_) or k_.startswith("__"):
+                continue
+            out[k_] = _bytes(v_) if isinstance(v_, np.ndarray) else repr(v_)
+        return out
+    params0 = params(slv)
     results = []
+    hists = []
     exc = None
     try:
         with warnings.catch_warnings():
@@ -246,6 +257,14 @@ def run_solve_purity(comp, storage, seed, tid):
                 res = slv.solve(Xs, y, df, pen) if k == 0 or s in ("LBFGS", "PDCD_WS", "GramCD", "FISTA") \
                     else slv.solve(Xs, y, df, pen)
                 results.append(np.array(res[0], dtype=float, copy=True))
+                hists.append(np.array(res[1], dtype=float, copy=True).ravel())
+                # solving does not change the solver's hyper-parameters
+                pnow = params(slv)
+                # (only what the solver was constructed with: a new private attribute is not a changed hyper-parameter)
+                changed = sorted(k2 for k2 in params0 if pnow.get(k2) != params0[k2])
+                f.flag("solver_params_untouched", not changed)
+                if changed:
+                    f.meta.setdefault("solver_attrs_changed", []).append([k, changed])
                 touched = [k2 for k2, v in arrays.items() if _bytes(v) != before[k2]]
                 f.flag("inputs_untouched", not touched)
                 if touched:
@@ -260,7 +279,9 @@ def run_solve_purity(comp, storage, seed, tid):
                     df.initialize_sparse(Xs.data, Xs.indptr, Xs.indices, y)
                 else:
                     df.initialize(X, y)
-            fresh = np.array(slv2.solve(Xs, y, df, pen)[0], dtype=float, copy=True)
+            rfresh = slv2.solve(Xs, y, df, pen)
+            fresh = np.array(rfresh[0], dtype=float, copy=True)
+            hfresh = np.array(rfresh[1], dtype=float, copy=True).ravel()
             # the SAME solver object on a design buffer refilled in place (same id, same shape, other numbers):
             # nothing remembered from the earlier solves may leak into this one
             X2 = np.asfortranarray(X * rng.uniform(0.5, 3.0, p) + 0.3 * rng.standard_normal(X.shape))
@@ -293,6 +314,12 @@ def run_solve_purity(comp, storage, seed, tid):
         tol = 1e-7 * max(1.0, float(np.abs(fresh).max()))
         f.le("resolve_same_as_fresh", float(np.max(np.abs(results[1] - fresh))), tol)
         f.le("resolve_same_as_first", float(np.max(np.abs(results[1] - results[0]))), tol)
+        # ... and the diagnostics of the second solve are those of a fresh solver (nothing accumulated)
+        same_len = len(hists[1]) == len(hfresh)
+        f.flag("resolve_history_same_as_fresh", same_len)
+        if same_len and len(hfresh):
+            f.le("resolve_history_same_as_fresh", float(np.max(np.abs(hists[1] - hfresh))),
+                 1e-8 * max(1.0, float(np.max(np.abs(hfresh)))))
         f.le("refilled_same_as_fresh", float(np.max(np.abs(third - fresh3))),
              1e-7 * max(1.0, float(np.abs(fresh3).max())))
     return f.trace()
